@@ -1,6 +1,1238 @@
-//! C20 check (see /verif/DESIGN.md section 5 and /verif/mc/README-dev.md).
-use mclib::engine::{catch, finish, install_quiet_panic_hook, Ctx, Report, Tier};
-use serde_json::json;
+//! C20 — randomly generated arguments always inhabit the requested types.
+//!
+//! E1 over (type environment, argument type list) x (generator configuration, scope) x
+//! (ALL entropy strings up to a length over a byte alphabet). The generator's only source of
+//! nondeterminism is the entropy slice, so the sweep is exhaustive inside the scope.
+//!
+//! Oracle per run: `candid_parser::random::any` returns `Err`, or `Ok(args)` with
+//!  (a) `annotate_types(false|true)` succeeds and maps the values to themselves,
+//!  (b) `to_bytes_with_types` succeeds and the reference decoder (R2) reads back the same
+//!      values, which the typing judgement (R1) accepts at the requested types,
+//!  (c) no unwinding, no abort (stack overflow / allocation failure), termination within 5 s,
+//!  (d) under a depth/size-limited configuration the number of nested choice nodes
+//!      (`opt` that is present, variant) is at most 3*limit + the type's own acyclic
+//!      choice depth (soft bound; vectors are governed by `width`, not by depth),
+//!  (e) the same (seed, config, types) twice gives the same result.
+//!
+//! Process layout: the parent only schedules. Every run happens in a child process
+//! (`--worker`), on a thread with an 8 MiB stack, watched by a watchdog (5 s per call into the subject). A dead or hung
+//! child is a verdict about the single input it was running (located by re-running the unit
+//! in "step" mode where the child announces every input before it runs it).
+use candid::types::{Type, TypeEnv};
+use candid_parser::configs::{Configs, Scope, ScopePos};
+use mclib::bridge;
+use mclib::engine::{catch, finish, install_quiet_panic_hook, Ctx, Tier};
+use mclib::scopes::recursive_envs;
+use refmodel::gen::{self, FuncShape, TyAlphabet};
+use refmodel::ty::{Env, Mode, Ty, P};
+use refmodel::val::{has_type, Val};
+use refmodel::wire::{self, Limits};
+use serde::{Deserialize, Serialize};
+use serde_json::{json, Value};
+use std::collections::{BTreeMap, BTreeSet};
+use std::io::{BufRead, BufReader, Read, Write};
+use std::sync::atomic::{AtomicU64, Ordering};
+use std::sync::{Arc, Mutex};
+use std::time::Instant;
+
+const SEED_ALPHABET: [u8; 5] = [0x00, 0x01, 0x7f, 0x80, 0xff];
+/// stack of the generator thread (didc runs the generator on an 8 MiB main thread). The
+/// implementation's recursion guard trips 32 KiB before the end of whatever stack it runs
+/// on, so the time of a runaway recursion is proportional to this number (~60 ms per MiB).
+const STACK_BYTES: usize = 8 << 20;
+const HANG_MS: u64 = 5000;
+
+// ---------------------------------------------------------------------------------------
+// scope
+
+#[derive(Clone)]
+struct TyList {
+    env: Env,
+    tys: Vec<Ty>,
+}
+
+#[derive(Clone)]
+struct Cfg {
+    name: String,
+    text: String,
+    /// (method, position) of the `Scope` argument
+    scope: Option<(String, Option<String>)>,
+    /// min(configured depth, configured size) when the configuration limits depth/size
+    lim: Option<i64>,
+}
+
+#[derive(Clone)]
+struct Unit {
+    list: usize,
+    cfg: usize,
+    nseeds: u64,
+    /// run every input in announced ("step") mode from the start
+    step: bool,
+    family: &'static str,
+}
+
+struct ScopeDef {
+    lists: Vec<TyList>,
+    cfgs: Vec<Cfg>,
+    units: Vec<Unit>,
+    seeds: Vec<Vec<u8>>,
+    notes: Vec<String>,
+    summary: Value,
+}
+
+/// number of byte strings of length 0..=l over the alphabet
+fn seeds_upto(l: usize) -> u64 {
+    let k = SEED_ALPHABET.len() as u64;
+    (0..=l as u32).map(|i| k.pow(i)).sum()
+}
+
+/// all byte strings of length 0..=l, ordered by length, then by alphabet index
+fn all_seeds(l: usize) -> Vec<Vec<u8>> {
+    let mut out: Vec<Vec<u8>> = vec![vec![]];
+    let mut prev: Vec<Vec<u8>> = vec![vec![]];
+    for _ in 0..l {
+        let mut next = Vec::with_capacity(prev.len() * SEED_ALPHABET.len());
+        for p in &prev {
+            for b in SEED_ALPHABET {
+                let mut q = p.clone();
+                q.push(b);
+                next.push(q);
+            }
+        }
+        out.extend(next.iter().cloned());
+        prev = next;
+    }
+    out
+}
+
+fn p(x: P) -> Ty {
+    Ty::Prim(x)
+}
+
+fn merged_recursive_env() -> (Env, Vec<Ty>) {
+    let mut env = Env::new();
+    let mut roots = vec![];
+    for (e, r) in recursive_envs("r") {
+        env = env.merge_disjoint(&e);
+        roots.push(r);
+    }
+    (env, roots)
+}
+
+/// uninhabited / infinitely recursive definitions (and their inhabited look-alikes)
+fn infinite_envs() -> Vec<(Env, Ty)> {
+    let t = || Ty::var("t");
+    vec![
+        (Env::from(vec![("t", Ty::record(vec![(0, t())]))]), t()),
+        (Env::from(vec![("t", Ty::variant(vec![(0, t())]))]), t()),
+        (Env::from(vec![("t", Ty::vec(t()))]), t()),
+        (Env::from(vec![("t", Ty::opt(t()))]), t()),
+        (
+            Env::from(vec![("a", Ty::record(vec![(0, Ty::var("b"))])), ("b", Ty::record(vec![(0, Ty::var("a"))]))]),
+            Ty::var("a"),
+        ),
+        (Env::from(vec![("t", Ty::record(vec![(0, p(P::Nat)), (1, t())]))]), t()),
+    ]
+}
+
+/// the definitions reachable from `tys`
+fn prune_env(env: &Env, tys: &[Ty]) -> Env {
+    let mut todo: Vec<String> = vec![];
+    for t in tys {
+        t.free_vars(&mut todo);
+    }
+    let mut out = Env::new();
+    while let Some(n) = todo.pop() {
+        if out.0.contains_key(&n) {
+            continue;
+        }
+        if let Some(d) = env.get(&n) {
+            out.0.insert(n.clone(), d.clone());
+            d.free_vars(&mut todo);
+        }
+    }
+    out
+}
+
+fn configs() -> Vec<Cfg> {
+    let mut v: Vec<Cfg> = vec![];
+    let mut add = |name: &str, text: String, lim: Option<i64>| {
+        v.push(Cfg { name: name.to_string(), text, scope: None, lim });
+    };
+    add("default", String::new(), None);
+    add("random={}", "[random]\n".into(), None);
+    let vars = ["rL", "rN", "rT", "rA", "rR", "t", "a"];
+    for key in ["depth", "size"] {
+        let vals: &[i64] = if key == "depth" { &[0, 1] } else { &[0, 1, 5] };
+        for d in vals {
+            add(&format!("{key}={d}@root"), format!("[random]\n{key} = {d}\n"), Some(*d));
+            add(
+                &format!("{key}={d}@args"),
+                format!("[random]\n\"0\" = {{ {key} = {d} }}\n\"1\" = {{ {key} = {d} }}\n"),
+                Some(*d),
+            );
+            let body: String = vars.iter().map(|n| format!("{n} = {{ {key} = {d} }}\n")).collect();
+            add(&format!("{key}={d}@vars"), format!("[random]\n{body}"), Some(*d));
+        }
+    }
+    for w in [0, 1] {
+        add(&format!("width={w}@root"), format!("[random]\nwidth = {w}\n"), None);
+    }
+    add("width=0@vec", "[random]\nvec = { width = 0 }\n".into(), None);
+    add("width=1@text", "[random]\ntext = { width = 1 }\n".into(), None);
+    for (n, r) in [
+        ("[0,0]", "[0, 0]"),
+        ("[-1,1]", "[-1, 1]"),
+        ("[10,5]", "[10, 5]"),
+        ("[i64min,i64max]", "[-9223372036854775808, 9223372036854775807]"),
+        ("[-5,-1]", "[-5, -1]"),
+        ("[5,300]", "[5, 300]"),
+    ] {
+        add(&format!("range={n}@root"), format!("[random]\nrange = {r}\n"), None);
+    }
+    add("range=[10,5]@nat8", "[random]\nnat8 = { range = [10, 5] }\n".into(), None);
+    add("range=[0,0]@toplevel-without-random-key", "range = [0, 0]\n".into(), None);
+    for t in ["ascii", "emoji", "name", "none", "bogus"] {
+        add(&format!("text={t}@root"), format!("[random]\ntext = \"{t}\"\n"), None);
+    }
+    let values: Vec<(&str, &str)> = vec![
+        ("[]", r#"[]"#),
+        ("[42]", r#"["42"]"#),
+        ("[-1]", r#"["-1"]"#),
+        ("[300]", r#"["300"]"#),
+        ("[1.5]", r#"["1.5"]"#),
+        ("[null,true]", r#"["null", "true"]"#),
+        ("[text-a]", r#"["\"a\""]"#),
+        ("[opt-1]", r#"["opt 1"]"#),
+        ("[vec{1;2},blob]", r#"["vec { 1; 2 }", "blob \"ab\""]"#),
+        ("[record{1},record{0=1;1=text}]", r#"["record { 1 }", "record { 0 = 1; 1 = \"x\" }"]"#),
+        ("[variant{0},variant{1=7}]", r#"["variant { 0 }", "variant { 1 = 7 }"]"#),
+        ("[principal,service,func]", r#"["principal \"aaaaa-aa\"", "service \"aaaaa-aa\"", "func \"aaaaa-aa\".m"]"#),
+        ("[42:nat8]", r#"["(42 : nat8)"]"#),
+        ("[syntax-error]", r#"["nonsense ("]"#),
+    ];
+    for (n, l) in values {
+        add(&format!("value={n}@root"), format!("[random]\nvalue = {l}\n"), None);
+    }
+    add("value=[42,-1]@nat", "[random]\nnat = { value = [\"42\", \"-1\"] }\n".into(), None);
+    add("value=[null]@field1", "[random]\n\"1\" = { value = [\"null\"] }\n".into(), None);
+    add("malformed:depth-is-a-string", "[random]\ndepth = \"x\"\n".into(), None);
+    // scoped configuration: `func:<method>` and `arg:<i>` tables
+    let scoped = "[random]\nrange = [0, 0]\n[random.\"func:f\"]\nrange = [-1, 1]\ntext = \"emoji\"\nrT = { depth = 1 }\n[random.\"func:f\".\"arg:0\"]\nrange = [7, 7]\nwidth = 1\nnat8 = { range = [9, 9] }\nrL = { depth = 0 }\n";
+    for (n, sc) in [
+        ("scope=none", None),
+        ("scope=f/arg", Some(("f", Some("arg")))),
+        ("scope=f/ret", Some(("f", Some("ret")))),
+        ("scope=f/-", Some(("f", None))),
+        ("scope=g/arg", Some(("g", Some("arg")))),
+    ] {
+        v.push(Cfg {
+            name: format!("scoped:{n}"),
+            text: scoped.to_string(),
+            scope: sc.map(|(m, p)| (m.to_string(), p.map(|s: &str| s.to_string()))),
+            lim: None,
+        });
+    }
+    v.push(Cfg { name: "default:scope=f/arg".into(), text: String::new(), scope: Some(("f".into(), Some("arg".into()))), lim: None });
+    v
+}
+
+fn build_scope(tier: Tier) -> ScopeDef {
+    let mut notes = vec![];
+    let empty = Env::new();
+    let leaves = [P::Null, P::Bool, P::Nat, P::Int, P::Nat8, P::Int64, P::Float64, P::Text, P::Reserved, P::Empty, P::Principal];
+    let alpha = TyAlphabet {
+        leaves: leaves.iter().map(|x| p(*x)).collect(),
+        opt: true,
+        vec: true,
+        record_labels: vec![vec![], vec![0], vec![0, 1]],
+        variant_labels: vec![vec![], vec![0], vec![0, 1]],
+        funcs: vec![],
+        services: vec![],
+        func_arg_pool: 0,
+    };
+    let t1 = gen::terms(&alpha, 1);
+    let ralpha = TyAlphabet {
+        leaves: vec![p(P::Nat), p(P::Text)],
+        opt: false,
+        vec: false,
+        record_labels: vec![],
+        variant_labels: vec![],
+        funcs: vec![
+            FuncShape { nargs: 0, nrets: 0, modes: vec![] },
+            FuncShape { nargs: 1, nrets: 1, modes: vec![Mode::Query] },
+            FuncShape { nargs: 1, nrets: 0, modes: vec![Mode::Oneway] },
+        ],
+        services: vec![vec![], vec!["m".into()], vec!["m".into(), "n".into()]],
+        func_arg_pool: 2,
+    };
+    let mut refs: Vec<Ty> =
+        gen::terms(&ralpha, 1).into_iter().filter(|t| matches!(t, Ty::Func(_) | Ty::Service(_))).collect();
+    let f0 = refs.iter().find(|t| matches!(t, Ty::Func(_))).unwrap().clone();
+    let s0 = refs.iter().find(|t| matches!(t, Ty::Service(_))).unwrap().clone();
+    refs.push(Ty::opt(f0.clone()));
+    refs.push(Ty::vec(s0.clone()));
+    refs.push(Ty::record(vec![(0, f0.clone()), (1, s0.clone())]));
+    let (renv, roots) = merged_recursive_env();
+
+    let mut lists: Vec<TyList> = vec![];
+    let mut fam: Vec<&'static str> = vec![];
+    let push = |lists: &mut Vec<TyList>, fam: &mut Vec<&'static str>, f: &'static str, env: &Env, tys: Vec<Ty>| -> usize {
+        lists.push(TyList { env: prune_env(env, &tys), tys });
+        fam.push(f);
+        lists.len() - 1
+    };
+    // ---- FULL: every list of the universe
+    let mut full: Vec<usize> = vec![];
+    full.push(push(&mut lists, &mut fam, "arity0", &empty, vec![]));
+    for t in &t1 {
+        full.push(push(&mut lists, &mut fam, "T1:depth<=1", &empty, vec![t.clone()]));
+    }
+    for t in &refs {
+        full.push(push(&mut lists, &mut fam, "refs", &empty, vec![t.clone()]));
+    }
+    for r in &roots {
+        for t in [r.clone(), Ty::opt(r.clone()), Ty::vec(r.clone()), Ty::record(vec![(0, r.clone()), (1, r.clone())])] {
+            full.push(push(&mut lists, &mut fam, "recursive", &renv, vec![t]));
+        }
+    }
+    let pair_set: Vec<Ty> = vec![
+        p(P::Nat),
+        p(P::Text),
+        p(P::Bool),
+        p(P::Empty),
+        p(P::Reserved),
+        Ty::opt(p(P::Nat)),
+        Ty::vec(p(P::Nat8)),
+        Ty::record(vec![(0, p(P::Nat)), (1, p(P::Text))]),
+        Ty::variant(vec![(0, p(P::Null)), (1, p(P::Nat))]),
+        Ty::variant(vec![]),
+        f0.clone(),
+        roots[0].clone(),
+    ];
+    for a in &pair_set {
+        for b in &pair_set {
+            full.push(push(&mut lists, &mut fam, "pairs", &renv, vec![a.clone(), b.clone()]));
+        }
+    }
+    // ---- RED: the reduced list crossed with every configuration
+    let mut red: Vec<usize> = vec![];
+    red.push(push(&mut lists, &mut fam, "reduced", &renv, vec![]));
+    let mut red_single: Vec<Ty> = pair_set.clone();
+    red_single.extend(vec![
+        p(P::Int),
+        p(P::Nat8),
+        p(P::Int64),
+        p(P::Float64),
+        p(P::Principal),
+        p(P::Null),
+        Ty::vec(p(P::Text)),
+        Ty::opt(p(P::Text)),
+        Ty::record(vec![]),
+        Ty::variant(vec![(0, p(P::Empty))]),
+        Ty::variant(vec![(0, p(P::Empty)), (1, p(P::Int))]),
+        Ty::record(vec![(0, p(P::Int)), (1, Ty::opt(p(P::Nat8)))]),
+        s0.clone(),
+        roots[1].clone(),
+        roots[2].clone(),
+        roots[3].clone(),
+        roots[4].clone(),
+        Ty::vec(roots[2].clone()),
+        Ty::opt(roots[0].clone()),
+    ]);
+    for t in &red_single {
+        red.push(push(&mut lists, &mut fam, "reduced", &renv, vec![t.clone()]));
+    }
+    for (a, b) in [
+        (p(P::Nat), p(P::Text)),
+        (roots[0].clone(), roots[2].clone()),
+        (Ty::vec(p(P::Nat8)), Ty::opt(p(P::Int))),
+        (roots[2].clone(), p(P::Nat8)),
+    ] {
+        red.push(push(&mut lists, &mut fam, "reduced", &renv, vec![a, b]));
+    }
+    // ---- INF: uninhabited / infinitely recursive definitions
+    let mut inf: Vec<usize> = vec![];
+    for (e, r) in infinite_envs() {
+        for tys in [
+            vec![r.clone()],
+            vec![Ty::opt(r.clone())],
+            vec![Ty::vec(r.clone())],
+            vec![p(P::Nat), r.clone()],
+            vec![r.clone(), p(P::Nat)],
+        ] {
+            inf.push(push(&mut lists, &mut fam, "infinite", &e, tys));
+        }
+    }
+
+    let cfgs = configs();
+    let by_name = |n: &str| cfgs.iter().position(|c| c.name == n).unwrap_or_else(|| panic!("config {n}"));
+    let inf_cfg_names: &[&str] = match tier {
+        Tier::Quick => &["default", "depth=0@vars", "value=[null,true]@root"],
+        Tier::Thorough => &["default", "depth=0@args", "depth=0@vars", "size=0@args", "width=0@root", "value=[null,true]@root"],
+    };
+    let inf_cfgs: Vec<usize> = inf_cfg_names.iter().map(|n| by_name(n)).collect();
+
+    let (l_main, l_long, l_inf) = match tier {
+        Tier::Quick => (4usize, 4usize, 1usize),
+        Tier::Thorough => (4, 6, 2),
+    };
+    let seeds = all_seeds(l_main.max(l_long).max(l_inf));
+    let mut units: Vec<Unit> = vec![];
+    // A: FULL x {default} at the long seed length
+    for &l in &full {
+        units.push(Unit { list: l, cfg: 0, nseeds: seeds_upto(l_long), step: false, family: "A:full-lists x default" });
+    }
+    // B: RED x all configurations at the long seed length
+    for &l in &red {
+        for c in 0..cfgs.len() {
+            units.push(Unit { list: l, cfg: c, nseeds: seeds_upto(l_long), step: false, family: "B:reduced-lists x all-configs" });
+        }
+    }
+    // C (thorough only): FULL x all configurations (except default, done in A) at the main seed length
+    if tier == Tier::Thorough {
+        for &l in &full {
+            for c in 1..cfgs.len() {
+                units.push(Unit { list: l, cfg: c, nseeds: seeds_upto(l_main), step: false, family: "C:full-lists x all-configs" });
+            }
+        }
+    }
+    // D: INF x reduced configurations, every input announced (expected to kill the worker)
+    for &l in &inf {
+        for &c in &inf_cfgs {
+            units.push(Unit { list: l, cfg: c, nseeds: seeds_upto(l_inf), step: true, family: "D:infinite-types x reduced-configs" });
+        }
+    }
+    let mut per_family: BTreeMap<&str, (u64, u64)> = BTreeMap::new();
+    for u in &units {
+        let e = per_family.entry(u.family).or_insert((0, 0));
+        e.0 += 1;
+        e.1 += u.nseeds;
+    }
+    let total_runs: u64 = units.iter().map(|u| u.nseeds).sum();
+    notes.push(format!(
+        "type lists: full={} (arity0 1, T1 depth<=1 {}, refs {}, recursive {}, pairs {}), reduced={}, infinite={}; configurations={}; seeds: alphabet {{00,01,7f,80,ff}}, lengths 0..={} (A,B) / 0..={} (C) / 0..={} (D); units={}; runs={}",
+        full.len(), t1.len(), refs.len(), roots.len() * 4, pair_set.len() * pair_set.len(), red.len(), inf.len(), cfgs.len(), l_long, l_main, l_inf, units.len(), total_runs
+    ));
+    for (f, (n, r)) in &per_family {
+        notes.push(format!("family {f}: {n} units (type list x configuration), {r} runs (x seeds)"));
+    }
+    let summary = json!({
+        "type_lists_full": full.len(), "type_lists_T1_depth<=1": t1.len(), "type_lists_refs": refs.len(),
+        "type_lists_recursive": roots.len() * 4, "type_lists_pairs": pair_set.len() * pair_set.len(),
+        "type_lists_reduced": red.len(), "type_lists_infinite": inf.len(), "configurations": cfgs.len(),
+        "seed_alphabet": "00,01,7f,80,ff", "seed_max_len_A_B": l_long, "seed_max_len_C": l_main, "seed_max_len_D": l_inf,
+        "seeds_A_B": seeds_upto(l_long), "units": units.len(), "planned_runs": total_runs,
+        "families": per_family.iter().map(|(f, (n, r))| json!({"family": f, "units": n, "runs": r})).collect::<Vec<_>>(),
+        "configuration_names": cfgs.iter().map(|c| c.name.clone()).collect::<Vec<_>>(),
+    });
+    let _ = fam;
+    ScopeDef { lists, cfgs, units, seeds, notes, summary }
+}
+
+// ---------------------------------------------------------------------------------------
+// accounting that crosses the process boundary
+
+#[derive(Serialize, Deserialize, Default, Clone, Debug, PartialEq, Eq, PartialOrd, Ord)]
+struct CaseLit {
+    env: String,
+    types: String,
+    config: String,
+    scope: Option<(String, Option<String>)>,
+    seed: String,
+    lim: Option<i64>,
+    #[serde(default)]
+    config_name: String,
+}
+
+impl CaseLit {
+    fn order_key(&self) -> (usize, usize, usize, usize, String) {
+        (
+            self.types.len() + self.env.len(),
+            self.config.len(),
+            self.scope.as_ref().map_or(0, |s| 1 + s.0.len()),
+            self.seed.len(),
+            format!("{}|{}|{}|{:?}|{}", self.types, self.env, self.config, self.scope, self.seed),
+        )
+    }
+}
+
+#[derive(Serialize, Deserialize, Clone, Debug)]
+struct FailAgg {
+    count: u64,
+    msg: String,
+    min: CaseLit,
+    /// a few smallest distinct (env, type list) texts and configuration names
+    lists: BTreeSet<(usize, String)>,
+    configs: BTreeSet<(usize, String)>,
+}
+
+#[derive(Serialize, Deserialize, Default, Debug)]
+struct Acc {
+    cases: u64,
+    calls: u64,
+    ok: u64,
+    err: u64,
+    failed: u64,
+    outcomes: BTreeMap<String, u64>,
+    maxima: BTreeMap<String, u64>,
+    counters: BTreeMap<String, u64>,
+    fails: BTreeMap<String, FailAgg>,
+    samples: Vec<Value>,
+}
+
+fn keep_smallest(s: &mut BTreeSet<(usize, String)>, n: usize) {
+    while s.len() > n {
+        let last = s.iter().next_back().cloned().unwrap();
+        s.remove(&last);
+    }
+}
+
+impl Acc {
+    fn outcome(&mut self, k: &str) {
+        *self.outcomes.entry(k.to_string()).or_insert(0) += 1;
+    }
+    fn max(&mut self, k: String, v: u64) {
+        let e = self.maxima.entry(k).or_insert(0);
+        if v > *e {
+            *e = v;
+        }
+    }
+    fn fail(&mut self, class: &str, msg: String, lit: &CaseLit) {
+        self.failed += 1;
+        let lt = format!("{} {}", lit.env.replace('\n', " "), lit.types);
+        match self.fails.get_mut(class) {
+            None => {
+                let mut a = FailAgg { count: 1, msg, min: lit.clone(), lists: BTreeSet::new(), configs: BTreeSet::new() };
+                a.lists.insert((lt.len(), lt));
+                a.configs.insert((lit.config_name.len(), lit.config_name.clone()));
+                self.fails.insert(class.to_string(), a);
+            }
+            Some(a) => {
+                a.count += 1;
+                if lit.order_key() < a.min.order_key() {
+                    a.min = lit.clone();
+                    a.msg = msg;
+                }
+                a.lists.insert((lt.len(), lt));
+                a.configs.insert((lit.config_name.len(), lit.config_name.clone()));
+                keep_smallest(&mut a.lists, 8);
+                keep_smallest(&mut a.configs, 8);
+            }
+        }
+    }
+    fn merge(&mut self, o: Acc) {
+        self.cases += o.cases;
+        self.calls += o.calls;
+        self.ok += o.ok;
+        self.err += o.err;
+        self.failed += o.failed;
+        for (k, v) in o.outcomes {
+            *self.outcomes.entry(k).or_insert(0) += v;
+        }
+        for (k, v) in o.counters {
+            *self.counters.entry(k).or_insert(0) += v;
+        }
+        for (k, v) in o.maxima {
+            self.max(k, v);
+        }
+        for (k, f) in o.fails {
+            match self.fails.get_mut(&k) {
+                None => {
+                    self.fails.insert(k, f);
+                }
+                Some(a) => {
+                    a.count += f.count;
+                    if f.min.order_key() < a.min.order_key() {
+                        a.min = f.min;
+                        a.msg = f.msg;
+                    }
+                    a.lists.extend(f.lists);
+                    a.configs.extend(f.configs);
+                    keep_smallest(&mut a.lists, 8);
+                    keep_smallest(&mut a.configs, 8);
+                }
+            }
+        }
+        for s in o.samples {
+            if self.samples.len() < 6 {
+                self.samples.push(s);
+            }
+        }
+    }
+}
+
+// ---------------------------------------------------------------------------------------
+// one run (inside the worker)
+
+fn tys_text(ts: &[Ty]) -> String {
+    format!("({})", ts.iter().map(|t| t.to_string()).collect::<Vec<_>>().join(", "))
+}
+fn vals_text(vs: &[Val]) -> String {
+    format!("({})", vs.iter().map(|t| t.to_string()).collect::<Vec<_>>().join(", "))
+}
+
+fn digits_to_hash(s: &str) -> String {
+    let mut out = String::new();
+    let mut in_num = false;
+    for c in s.chars() {
+        if c.is_ascii_digit() {
+            if !in_num {
+                out.push('#');
+            }
+            in_num = true;
+        } else {
+            in_num = false;
+            out.push(c);
+        }
+    }
+    out
+}
+fn clip(s: &str, n: usize) -> String {
+    s.chars().take(n).collect()
+}
+/// coarse kind of an error message: text before the first ':', numbers abstracted
+fn err_kind(s: &str) -> String {
+    let l = s.lines().next().unwrap_or("");
+    let l = l.split(':').next().unwrap_or(l);
+    clip(&digits_to_hash(l), 48)
+}
+/// panic class: message with numbers abstracted + exact source location
+fn panic_class(p: &str) -> String {
+    match p.rsplit_once(" @ ") {
+        Some((m, loc)) => format!("panic:{} @ {}", clip(&digits_to_hash(m.lines().next().unwrap_or("")), 90), loc),
+        None => format!("panic:{}", clip(&digits_to_hash(p), 90)),
+    }
+}
+
+/// acyclic choice depth of a type: the most `opt`/`variant` constructors on a path that
+/// unfolds every definition at most once
+fn choice_depth(env: &Env, t: &Ty, path: &mut Vec<String>) -> u64 {
+    match t {
+        Ty::Var(n) => {
+            if path.contains(n) {
+                0
+            } else {
+                path.push(n.clone());
+                let r = env.get(n).map(|d| choice_depth(env, d, path)).unwrap_or(0);
+                path.pop();
+                r
+            }
+        }
+        Ty::Opt(x) => 1 + choice_depth(env, x, path),
+        Ty::Variant(fs) => 1 + fs.iter().map(|f| choice_depth(env, &f.1, path)).max().unwrap_or(0),
+        Ty::Vec(x) => choice_depth(env, x, path),
+        Ty::Record(fs) => fs.iter().map(|f| choice_depth(env, &f.1, path)).max().unwrap_or(0),
+        _ => 0,
+    }
+}
+/// nested choice nodes of a value (present options and variants)
+fn rdepth(v: &Val) -> u64 {
+    match v {
+        Val::Opt(Some(x)) => 1 + rdepth(x),
+        Val::Variant(_, x) => 1 + rdepth(x),
+        Val::Vec(vs) => vs.iter().map(rdepth).max().unwrap_or(0),
+        Val::Record(fs) => fs.iter().map(|f| rdepth(&f.1)).max().unwrap_or(0),
+        _ => 0,
+    }
+}
+fn vdepth(v: &Val) -> u64 {
+    match v {
+        Val::Opt(Some(x)) => 1 + vdepth(x),
+        Val::Variant(_, x) => 1 + vdepth(x),
+        Val::Vec(vs) => 1 + vs.iter().map(vdepth).max().unwrap_or(0),
+        Val::Record(fs) => 1 + fs.iter().map(|f| vdepth(&f.1)).max().unwrap_or(0),
+        _ => 1,
+    }
+}
+
+struct UnitCtx {
+    menv: Env,
+    mtys: Vec<Ty>,
+    renv: TypeEnv,
+    rtys: Vec<Type>,
+    configs: Result<Configs, String>,
+    scope: Option<(String, Option<String>)>,
+    lim: Option<i64>,
+    cdepth: Vec<u64>,
+    lit: CaseLit,
+}
+
+impl UnitCtx {
+    fn new(env: &Env, tys: &[Ty], cfg_text: &str, cfg_name: &str, scope: &Option<(String, Option<String>)>, lim: Option<i64>) -> UnitCtx {
+        let configs = cfg_text.parse::<Configs>().map_err(|e| format!("{e}"));
+        UnitCtx {
+            menv: env.clone(),
+            mtys: tys.to_vec(),
+            renv: bridge::to_real_env(env),
+            rtys: tys.iter().map(bridge::to_real_ty).collect(),
+            configs,
+            scope: scope.clone(),
+            lim,
+            cdepth: tys.iter().map(|t| choice_depth(env, t, &mut vec![])).collect(),
+            lit: CaseLit {
+                env: env.to_string(),
+                types: tys_text(tys),
+                config: cfg_text.to_string(),
+                scope: scope.clone(),
+                seed: String::new(),
+                lim,
+                config_name: cfg_name.to_string(),
+            },
+        }
+    }
+    fn lit(&self, seed: &[u8]) -> CaseLit {
+        let mut l = self.lit.clone();
+        l.seed = hex::encode(seed);
+        l
+    }
+}
+
+enum Gen {
+    Ok(candid::IDLArgs),
+    Err(String),
+    Panic(String),
+}
+
+fn call_any(u: &UnitCtx, configs: &Configs, seed: &[u8]) -> Gen {
+    let scope: Option<Scope> = u.scope.as_ref().map(|(m, p)| Scope {
+        method: m.as_str(),
+        position: match p.as_deref() {
+            Some("arg") => Some(ScopePos::Arg),
+            Some("ret") => Some(ScopePos::Ret),
+            _ => None,
+        },
+    });
+    watch();
+    match catch(|| candid_parser::random::any(seed, configs.clone(), &u.renv, &u.rtys, &scope)) {
+        Err(p) => Gen::Panic(p),
+        Ok(Err(e)) => Gen::Err(format!("{e}")),
+        Ok(Ok(a)) => Gen::Ok(a),
+    }
+}
+
+/// Run one input and judge it. Returns (outcome class, failure (class, message)).
+fn exec_case(u: &UnitCtx, seed: &[u8], acc: &mut Acc) {
+    acc.cases += 1;
+    let configs = match &u.configs {
+        Ok(c) => c,
+        Err(e) => {
+            // the configuration text is not TOML: rejected before the generator runs
+            acc.err += 1;
+            acc.outcome(&format!("err:config-not-toml:{}", err_kind(e)));
+            return;
+        }
+    };
+    let mut fails: Vec<(String, String)> = vec![];
+    acc.calls += 2;
+    let g1 = call_any(u, configs, seed);
+    let g2 = call_any(u, configs, seed);
+    let outcome: String;
+    match (&g1, &g2) {
+        (Gen::Panic(p), _) => {
+            outcome = "fail:panic".into();
+            fails.push((panic_class(p), format!("random::any unwinds: {p}")));
+        }
+        (Gen::Err(e), g2) => {
+            outcome = format!("err:{}", err_kind(e));
+            acc.err += 1;
+            match g2 {
+                Gen::Err(e2) if e2 == e => {}
+                _ => fails.push(("nondeterministic".into(), format!("first run Err({e}), second run differs"))),
+            }
+        }
+        (Gen::Ok(args), g2) => {
+            acc.ok += 1;
+            outcome = "ok".into();
+            match bridge::from_idl_args(args) {
+                Err(b) => fails.push(("bridge:result-not-a-value".into(), b)),
+                Ok(vals) => {
+                    // (e) determinism
+                    match g2 {
+                        Gen::Ok(a2) => {
+                            let same = bridge::from_idl_args(a2).map(|v2| v2 == vals).unwrap_or(false) && format!("{a2}") == format!("{args}");
+                            if !same {
+                                fails.push(("nondeterministic".into(), format!("first run {args}, second run {a2}")));
+                            }
+                        }
+                        _ => fails.push(("nondeterministic".into(), format!("first run {args}, second run is not Ok"))),
+                    }
+                    if vals.len() != u.mtys.len() {
+                        fails.push(("arity".into(), format!("{} values for {} types", vals.len(), u.mtys.len())));
+                    } else {
+                        // (a) annotate_types maps the values to themselves
+                        for fp in [false, true] {
+                            acc.calls += 1;
+                            watch();
+                            match catch(|| args.clone().annotate_types(fp, &u.renv, &u.rtys)) {
+                                Err(pm) => fails.push((format!("annotate({fp}):{}", panic_class(&pm)), format!("annotate_types({fp}) unwinds on {args}: {pm}"))),
+                                Ok(Err(e)) => fails.push((
+                                    format!("annotate({fp})-err:{}", err_kind(&format!("{e}"))),
+                                    format!("generated {args} but annotate_types({fp}) fails: {e}"),
+                                )),
+                                Ok(Ok(a2)) => match bridge::from_idl_args(&a2) {
+                                    Ok(v2) if v2 == vals => {}
+                                    Ok(v2) => fails.push((
+                                        format!("annotate({fp})-changes-value"),
+                                        format!("generated {} but annotate_types({fp}) gives {}", vals_text(&vals), vals_text(&v2)),
+                                    )),
+                                    Err(b) => fails.push((format!("annotate({fp})-bridge"), b)),
+                                },
+                            }
+                        }
+                        // (b) encodes at the requested types; R2 decodes the same values; R1 types them
+                        acc.calls += 1;
+                        watch();
+                        match catch(|| args.to_bytes_with_types(&u.renv, &u.rtys)) {
+                            Err(pm) => fails.push((format!("encode:{}", panic_class(&pm)), format!("to_bytes_with_types unwinds on {args}: {pm}"))),
+                            Ok(Err(e)) => fails.push((
+                                format!("encode-err:{}", err_kind(&format!("{e}"))),
+                                format!("generated {args} but to_bytes_with_types fails: {e}"),
+                            )),
+                            Ok(Ok(bytes)) => match wire::decode(&bytes, &Limits::default()) {
+                                Err(e) => fails.push((
+                                    "encode-not-decodable".into(),
+                                    format!("generated {args}; encoding {} is rejected by the reference decoder: {e:?}", hex::encode(&bytes)),
+                                )),
+                                Ok(d) => {
+                                    if d.vals != vals {
+                                        fails.push((
+                                            "encode-decodes-to-other-value".into(),
+                                            format!("generated {} but the encoding decodes to {}", vals_text(&vals), vals_text(&d.vals)),
+                                        ));
+                                    }
+                                }
+                            },
+                        }
+                        for (v, t) in vals.iter().zip(&u.mtys) {
+                            if !has_type(&u.menv, v, t) {
+                                fails.push(("not-an-inhabitant".into(), format!("generated {v} which does not have type {t}")));
+                            }
+                        }
+                        // (d) size
+                        let nodes: u64 = vals.iter().map(|v| v.nodes()).sum();
+                        let depth: u64 = vals.iter().map(vdepth).max().unwrap_or(0);
+                        let rd: u64 = vals.iter().map(rdepth).max().unwrap_or(0);
+                        acc.max(format!("{}|max_nodes", u.lit.config_name), nodes);
+                        acc.max(format!("{}|max_depth", u.lit.config_name), depth);
+                        acc.max(format!("{}|max_choice_depth", u.lit.config_name), rd);
+                        if let Some(lim) = u.lim {
+                            for (v, c) in vals.iter().zip(&u.cdepth) {
+                                let bound = 3 * lim.max(0) as u64 + c;
+                                let r = rdepth(v);
+                                if r > bound {
+                                    fails.push((
+                                        format!("size-bound:limit-set-at-{}", u.lit.config_name.rsplit('@').next().unwrap_or("?")),
+                                        format!(
+                                            "configuration limits depth/size to {lim}, the type's acyclic choice depth is {c}, but the value {v} nests {r} choice nodes (> 3*{}+{c})",
+                                            lim.max(0)
+                                        ),
+                                    ));
+                                }
+                            }
+                        }
+                    }
+                    if acc.samples.len() < 2 && !vals.is_empty() && nodes_of(&vals) > 2 {
+                        acc.samples.push(json!({"types": u.lit.types, "config": u.lit.config_name, "seed": hex::encode(seed), "generated": vals_text(&vals)}));
+                    }
+                }
+            }
+        }
+    }
+    if fails.is_empty() {
+        acc.outcome(&outcome);
+    } else {
+        let lit = u.lit(seed);
+        // one failing case counts once, under its first clause; every clause is recorded
+        acc.outcome(&format!("fail:{}", fails[0].0.split(':').next().unwrap_or("")));
+        let n = fails.len();
+        for (i, (c, m)) in fails.into_iter().enumerate() {
+            acc.fail(&c, m, &lit);
+            if i + 1 < n {
+                acc.failed -= 1;
+            }
+        }
+    }
+}
+
+fn nodes_of(vs: &[Val]) -> u64 {
+    vs.iter().map(|v| v.nodes()).sum()
+}
+
+// ---------------------------------------------------------------------------------------
+// worker process
+
+static CUR_START_MS: AtomicU64 = AtomicU64::new(0);
+static T0: std::sync::OnceLock<Instant> = std::sync::OnceLock::new();
+/// (re)start the watchdog clock: called before every call into the subject
+fn watch() {
+    if let Some(t0) = T0.get() {
+        CUR_START_MS.store(t0.elapsed().as_millis() as u64 + 1, Ordering::Relaxed);
+    }
+}
+static CUR_UNIT: AtomicU64 = AtomicU64::new(0);
+static CUR_SEED: AtomicU64 = AtomicU64::new(0);
+
+fn parse_env_and_types(env_src: &str, tys_src: &str) -> Result<(Env, Vec<Ty>), String> {
+    use candid_parser::syntax::{IDLProg, IDLTypes};
+    let prog: IDLProg = env_src.parse().map_err(|e| format!("{e}"))?;
+    let mut te = TypeEnv::new();
+    candid_parser::check_prog(&mut te, &prog).map_err(|e| format!("{e}"))?;
+    let tys: IDLTypes = tys_src.parse().map_err(|e| format!("{e}"))?;
+    let mut out = vec![];
+    let mut knots = Env::new();
+    for t in &tys.args {
+        let rt = candid_parser::typing::ast_to_type(&te, &t.typ).map_err(|e| format!("{e}"))?;
+        out.push(bridge::from_real_ty(&rt, &mut knots)?);
+    }
+    Ok((bridge::from_real_env(&te)?, out))
+}
+
+fn unit_ctx(sc: &ScopeDef, u: usize) -> UnitCtx {
+    let unit = &sc.units[u];
+    let l = &sc.lists[unit.list];
+    let c = &sc.cfgs[unit.cfg];
+    UnitCtx::new(&l.env, &l.tys, &c.text, &c.name, &c.scope, c.lim)
+}
+
+fn emit(line: &str) {
+    let out = std::io::stdout();
+    let mut o = out.lock();
+    let _ = o.write_all(line.as_bytes());
+    let _ = o.write_all(b"\n");
+    let _ = o.flush();
+}
+
+fn worker_loop(sc: Arc<ScopeDef>, t0: Instant) {
+    let stdin = std::io::stdin();
+    let mut line = String::new();
+    let now_ms = || t0.elapsed().as_millis() as u64 + 1;
+    loop {
+        line.clear();
+        match stdin.lock().read_line(&mut line) {
+            Ok(0) | Err(_) => return,
+            Ok(_) => {}
+        }
+        let cmd: Value = match serde_json::from_str(line.trim()) {
+            Ok(v) => v,
+            Err(_) => continue,
+        };
+        match cmd["cmd"].as_str() {
+            Some("bulk") => {
+                let u = cmd["unit"].as_u64().unwrap() as usize;
+                let ctx = unit_ctx(&sc, u);
+                let mut acc = Acc::default();
+                CUR_UNIT.store(u as u64, Ordering::Relaxed);
+                for i in 0..sc.units[u].nseeds {
+                    CUR_SEED.store(i, Ordering::Relaxed);
+                    CUR_START_MS.store(now_ms(), Ordering::Relaxed);
+                    exec_case(&ctx, &sc.seeds[i as usize], &mut acc);
+                }
+                CUR_START_MS.store(0, Ordering::Relaxed);
+                emit(&format!("R {}", serde_json::to_string(&acc).unwrap()));
+            }
+            Some("step") => {
+                let u = cmd["unit"].as_u64().unwrap() as usize;
+                let from = cmd["from"].as_u64().unwrap();
+                let ctx = unit_ctx(&sc, u);
+                CUR_UNIT.store(u as u64, Ordering::Relaxed);
+                for i in from..sc.units[u].nseeds {
+                    emit(&format!("S {i}"));
+                    CUR_SEED.store(i, Ordering::Relaxed);
+                    CUR_START_MS.store(now_ms(), Ordering::Relaxed);
+                    let mut acc = Acc::default();
+                    exec_case(&ctx, &sc.seeds[i as usize], &mut acc);
+                    CUR_START_MS.store(0, Ordering::Relaxed);
+                    emit(&format!("C {}", serde_json::to_string(&acc).unwrap()));
+                }
+                emit("E");
+            }
+            Some("case") => {
+                let lit: CaseLit = serde_json::from_value(cmd["case"].clone()).expect("case literal");
+                let (env, tys) = match parse_env_and_types(&lit.env, &lit.types) {
+                    Ok(x) => x,
+                    Err(e) => {
+                        emit(&format!("X cannot parse the recorded types: {e}"));
+                        continue;
+                    }
+                };
+                let ctx = UnitCtx::new(&env, &tys, &lit.config, &lit.config_name, &lit.scope, lit.lim);
+                let seed = hex::decode(&lit.seed).unwrap_or_default();
+                emit("S 0");
+                CUR_UNIT.store(u64::MAX, Ordering::Relaxed);
+                CUR_SEED.store(0, Ordering::Relaxed);
+                CUR_START_MS.store(now_ms(), Ordering::Relaxed);
+                let mut acc = Acc::default();
+                exec_case(&ctx, &seed, &mut acc);
+                CUR_START_MS.store(0, Ordering::Relaxed);
+                emit(&format!("C {}", serde_json::to_string(&acc).unwrap()));
+                emit("E");
+            }
+            _ => {}
+        }
+    }
+}
+
+fn worker_main(tier: Tier) -> ! {
+    install_quiet_panic_hook();
+    let t0 = Instant::now();
+    let _ = T0.set(t0);
+    let sc = Arc::new(build_scope(tier));
+    let h = std::thread::Builder::new()
+        .name("generator".into())
+        .stack_size(STACK_BYTES)
+        .spawn(move || worker_loop(sc, t0))
+        .expect("spawn worker thread");
+    loop {
+        std::thread::sleep(std::time::Duration::from_millis(50));
+        if h.is_finished() {
+            std::process::exit(if h.join().is_ok() { 0 } else { 4 });
+        }
+        let s = CUR_START_MS.load(Ordering::Relaxed);
+        if s != 0 {
+            let now = t0.elapsed().as_millis() as u64 + 1;
+            if now > s && now - s > HANG_MS && CUR_START_MS.load(Ordering::Relaxed) == s {
+                emit(&format!("H {}", CUR_SEED.load(Ordering::Relaxed)));
+                std::process::exit(3);
+            }
+        }
+    }
+}
+
+// ---------------------------------------------------------------------------------------
+// parent side
+
+struct Child {
+    proc: std::process::Child,
+    stdin: std::process::ChildStdin,
+    stdout: BufReader<std::process::ChildStdout>,
+}
+
+static MACHINERY_ERRORS: AtomicU64 = AtomicU64::new(0);
+static CHILD_SPAWNS: AtomicU64 = AtomicU64::new(0);
+
+impl Child {
+    fn spawn(tier: Tier) -> Child {
+        CHILD_SPAWNS.fetch_add(1, Ordering::Relaxed);
+        let exe = std::env::current_exe().expect("current_exe");
+        let mut proc = std::process::Command::new(exe)
+            .arg("--worker")
+            .arg(tier.name())
+            // error values must not depend on the caller's environment: with RUST_BACKTRACE
+            // set, anyhow captures (and `unwrap` prints) a backtrace of the whole stack
+            .env_remove("RUST_LIB_BACKTRACE")
+            .env("RUST_BACKTRACE", "0")
+            .stdin(std::process::Stdio::piped())
+            .stdout(std::process::Stdio::piped())
+            .stderr(std::process::Stdio::piped())
+            .spawn()
+            .expect("spawn worker process");
+        let stdin = proc.stdin.take().unwrap();
+        let stdout = BufReader::new(proc.stdout.take().unwrap());
+        Child { proc, stdin, stdout }
+    }
+    fn send(&mut self, v: &Value) -> bool {
+        let mut s = serde_json::to_string(v).unwrap();
+        s.push('\n');
+        self.stdin.write_all(s.as_bytes()).and_then(|_| self.stdin.flush()).is_ok()
+    }
+    fn read(&mut self) -> Option<String> {
+        let mut l = String::new();
+        match self.stdout.read_line(&mut l) {
+            Ok(0) | Err(_) => None,
+            Ok(_) => Some(l.trim_end().to_string()),
+        }
+    }
+    /// wait for the (dead) child; describe how it died
+    fn reap(mut self) -> String {
+        drop(self.stdin);
+        let status = self.proc.wait();
+        let mut err = String::new();
+        if let Some(mut e) = self.proc.stderr.take() {
+            let _ = e.read_to_string(&mut err);
+        }
+        let how = match status {
+            Ok(st) => {
+                use std::os::unix::process::ExitStatusExt;
+                match (st.signal(), st.code()) {
+                    (Some(s), _) => format!("signal-{s}"),
+                    (_, Some(c)) => format!("exit-code-{c}"),
+                    _ => "unknown".into(),
+                }
+            }
+            Err(e) => format!("wait-error-{e}"),
+        };
+        if err.contains("overflowed its stack") {
+            format!("stack-overflow({how})")
+        } else if err.contains("memory allocation") {
+            format!("allocation-failure({how})")
+        } else {
+            how
+        }
+    }
+}
+
+fn shutdown(c: Child) {
+    let Child { mut proc, stdin, stdout } = c;
+    drop(stdin);
+    drop(stdout);
+    let _ = proc.wait();
+}
+
+struct ThreadState {
+    child: Option<Child>,
+    tier: Tier,
+}
+impl Drop for ThreadState {
+    fn drop(&mut self) {
+        if let Some(c) = self.child.take() {
+            shutdown(c);
+        }
+    }
+}
+
+fn lit_of(sc: &ScopeDef, u: usize, seed_idx: u64) -> CaseLit {
+    let unit = &sc.units[u];
+    let l = &sc.lists[unit.list];
+    let c = &sc.cfgs[unit.cfg];
+    CaseLit {
+        env: l.env.to_string(),
+        types: tys_text(&l.tys),
+        config: c.text.clone(),
+        scope: c.scope.clone(),
+        seed: hex::encode(&sc.seeds[seed_idx as usize]),
+        lim: c.lim,
+        config_name: c.name.clone(),
+    }
+}
+
+fn dead_child_verdict(acc: &mut Acc, how: &str, lit: &CaseLit) {
+    acc.cases += 1;
+    acc.calls += 1;
+    let class = format!("abort:{how}");
+    acc.outcome(&format!("fail:abort:{how}"));
+    acc.fail(&class, format!("random::any kills the process ({how}) instead of returning"), lit);
+}
+fn hang_verdict(acc: &mut Acc, lit: &CaseLit) {
+    acc.cases += 1;
+    acc.calls += 1;
+    acc.outcome("fail:non-termination");
+    acc.fail("non-termination(>5s)", format!("random::any did not return within {HANG_MS} ms"), lit);
+}
+
+/// Run unit `u` completely; returns its accounting.
+fn run_unit(sc: &ScopeDef, st: &mut ThreadState, u: usize) -> Acc {
+    let unit = &sc.units[u];
+    let mut acc = Acc::default();
+    if !unit.step {
+        let c = st.child.get_or_insert_with(|| Child::spawn(st.tier));
+        c.send(&json!({"cmd": "bulk", "unit": u}));
+        match c.read() {
+            Some(l) if l.starts_with("R ") => {
+                let a: Acc = serde_json::from_str(&l[2..]).expect("unit report");
+                return a;
+            }
+            _ => {
+                // died or hung somewhere inside the unit: locate the input in step mode
+                let c = st.child.take().unwrap();
+                let _ = c.reap();
+                acc.counters.insert("bulk_units_rerun_in_step_mode".into(), 1);
+            }
+        }
+    }
+    let mut from = 0u64;
+    while from < unit.nseeds {
+        let c = st.child.get_or_insert_with(|| Child::spawn(st.tier));
+        c.send(&json!({"cmd": "step", "unit": u, "from": from}));
+        let mut last: Option<u64> = None;
+        loop {
+            match c.read() {
+                Some(l) if l.starts_with("S ") => last = l[2..].parse().ok(),
+                Some(l) if l.starts_with("C ") => {
+                    let a: Acc = serde_json::from_str(&l[2..]).expect("case report");
+                    acc.merge(a);
+                }
+                Some(l) if l == "E" => return acc,
+                Some(l) if l.starts_with("H ") => {
+                    let i: u64 = l[2..].parse().unwrap_or(last.unwrap_or(from));
+                    let c = st.child.take().unwrap();
+                    let _ = c.reap();
+                    hang_verdict(&mut acc, &lit_of(sc, u, i));
+                    from = i + 1;
+                    break;
+                }
+                Some(_) => {}
+                None => {
+                    let c = st.child.take().unwrap();
+                    let how = c.reap();
+                    match last {
+                        Some(i) => {
+                            dead_child_verdict(&mut acc, &how, &lit_of(sc, u, i));
+                            from = i + 1;
+                        }
+                        None => {
+                            // died before announcing any input: not a verdict
+                            MACHINERY_ERRORS.fetch_add(1, Ordering::Relaxed);
+                            eprintln!("ENGINE-ERROR: worker died ({how}) before announcing an input of unit {u}");
+                            return acc;
+                        }
+                    }
+                    break;
+                }
+            }
+        }
+    }
+    acc
+}
+
+/// Run one literal case in a fresh worker; the returned accounting has exactly one case.
+fn run_isolated(tier: Tier, lit: &CaseLit) -> Result<Acc, String> {
+    let mut c = Child::spawn(tier);
+    c.send(&json!({"cmd": "case", "case": lit}));
+    let mut acc = Acc::default();
+    let mut announced = false;
+    loop {
+        match c.read() {
+            Some(l) if l.starts_with("S ") => announced = true,
+            Some(l) if l.starts_with("C ") => acc.merge(serde_json::from_str(&l[2..]).map_err(|e| format!("{e}"))?),
+            Some(l) if l == "E" => {
+                shutdown(c);
+                return Ok(acc);
+            }
+            Some(l) if l.starts_with("X ") => {
+                shutdown(c);
+                return Err(l[2..].to_string());
+            }
+            Some(l) if l.starts_with("H ") => {
+                let _ = c.reap();
+                hang_verdict(&mut acc, lit);
+                return Ok(acc);
+            }
+            Some(_) => {}
+            None => {
+                let how = c.reap();
+                if !announced {
+                    return Err(format!("worker died ({how}) before running the case"));
+                }
+                dead_child_verdict(&mut acc, &how, lit);
+                return Ok(acc);
+            }
+        }
+    }
+}
+
+fn violation_key(class: &str, lit: &CaseLit) -> String {
+    let scope = match &lit.scope {
+        None => "-".to_string(),
+        Some((m, p)) => format!("{m}/{}", p.clone().unwrap_or("-".into())),
+    };
+    format!(
+        "{class}|types={}|env={}|config={}|scope={scope}",
+        lit.types,
+        lit.env.replace('\n', ""),
+        lit.config.replace('\n', ";")
+    )
+}
 
 fn parse_args() -> (Tier, Option<String>, Vec<String>) {
     let args: Vec<String> = std::env::args().collect();
@@ -28,18 +1260,147 @@ fn parse_args() -> (Tier, Option<String>, Vec<String>) {
     (tier, replay, rest)
 }
 
+fn replay(path: &str, tier: Tier) -> i32 {
+    let s = match std::fs::read_to_string(path) {
+        Ok(s) => s,
+        Err(e) => {
+            eprintln!("cannot read {path}: {e}");
+            return 2;
+        }
+    };
+    let v: Value = match serde_json::from_str(&s) {
+        Ok(v) => v,
+        Err(e) => {
+            eprintln!("replay file is not JSON: {e}");
+            return 2;
+        }
+    };
+    let lit: CaseLit = match serde_json::from_value(v["case"]["input"].clone()) {
+        Ok(l) => l,
+        Err(e) => {
+            eprintln!("replay file has no case.input literal: {e}");
+            return 2;
+        }
+    };
+    let want = v["case"]["class"].as_str().unwrap_or("").to_string();
+    match run_isolated(tier, &lit) {
+        Err(e) => {
+            eprintln!("ENGINE-ERROR: {e}");
+            2
+        }
+        Ok(acc) => {
+            if acc.fails.is_empty() {
+                println!(
+                    "not reproduced: types {} config {:?} seed {} -> outcomes {:?}",
+                    lit.types,
+                    lit.config,
+                    lit.seed,
+                    acc.outcomes.keys().collect::<Vec<_>>()
+                );
+                0
+            } else {
+                for (class, f) in &acc.fails {
+                    let tag = if *class == want || want.is_empty() { "" } else { " (different class than recorded)" };
+                    println!("REPRODUCED {} :: {}{}", mclib::engine::mk_key(&violation_key(class, &lit)), f.msg, tag);
+                }
+                1
+            }
+        }
+    }
+}
+
 fn main() {
+    let argv: Vec<String> = std::env::args().collect();
+    if argv.get(1).map(|s| s.as_str()) == Some("--worker") {
+        let tier = if argv.get(2).map(|s| s.as_str()) == Some("thorough") { Tier::Thorough } else { Tier::Quick };
+        worker_main(tier);
+    }
     install_quiet_panic_hook();
-    let (tier, replay, _rest) = parse_args();
-    if let Some(path) = replay {
-        let _ = path;
-        eprintln!("replay not implemented yet");
+    let (tier, replay_path, _rest) = parse_args();
+    if let Some(path) = replay_path {
+        std::process::exit(replay(&path, tier));
+    }
+    let ctx = Ctx::new("C20", tier, tier.pick(150, 1500));
+    let sc = build_scope(tier);
+    let total = Mutex::new(Acc::default());
+    let mut rep = ctx.par_range(
+        "units(type-list x configuration), each over all seeds",
+        sc.units.len() as u64,
+        1,
+        || ThreadState { child: None, tier },
+        |st, u, _rep| {
+            let a = run_unit(&sc, st, u as usize);
+            total.lock().unwrap().merge(a);
+        },
+    );
+    let mut acc = total.into_inner().unwrap();
+    rep.evaluations = acc.cases;
+    rep.states = acc.cases;
+    rep.transitions = acc.calls;
+    rep.traces_validated = acc.cases;
+    rep.nontrivial = acc.ok;
+    rep.outcomes = std::mem::take(&mut acc.outcomes);
+    for (k, v) in &acc.counters {
+        rep.count(k, *v);
+    }
+    rep.count("runs_total", acc.cases);
+    rep.count("runs_returning_Ok", acc.ok);
+    rep.count("runs_returning_Err", acc.err);
+    rep.count("runs_failing_the_oracle", acc.failed);
+    rep.count("worker_processes_spawned", CHILD_SPAWNS.load(Ordering::Relaxed));
+    for s in acc.samples.drain(..) {
+        rep.sample(s);
+    }
+    rep.notes.extend(sc.notes.clone());
+    // one violation per failure class, carried by the smallest input; confirmed in a fresh worker
+    let mut classes = vec![];
+    for (class, f) in &acc.fails {
+        let confirm = run_isolated(tier, &f.min);
+        let confirmed = match &confirm {
+            Ok(a) => a.fails.contains_key(class),
+            Err(_) => false,
+        };
+        if !confirmed {
+            let seen: Vec<String> = confirm.as_ref().map(|a| a.fails.keys().cloned().collect()).unwrap_or_default();
+            rep.notes.push(format!("class {class}: re-run of the minimal case did not give the same class (saw {seen:?}, {confirm:?})", confirm = confirm.as_ref().err()));
+        }
+        let lists: Vec<&String> = f.lists.iter().map(|x| &x.1).collect();
+        let cfgs: Vec<&String> = f.configs.iter().map(|x| &x.1).collect();
+        let msg = format!(
+            "{} [types {} | config {} | seed {}]; {} failing runs in this class; smallest type lists: {:?}; configurations: {:?}{}",
+            f.msg,
+            f.min.types,
+            if f.min.config_name.is_empty() { "?" } else { &f.min.config_name },
+            if f.min.seed.is_empty() { "(empty)" } else { &f.min.seed },
+            f.count,
+            lists,
+            cfgs,
+            if confirmed { "" } else { " (NOT confirmed on re-run)" }
+        );
+        rep.violation(
+            &violation_key(class, &f.min),
+            msg,
+            json!({"class": class, "input": f.min, "failing_runs": f.count, "smallest_type_lists": lists, "configurations": cfgs, "confirmed_on_rerun": confirmed}),
+        );
+        classes.push(json!({"class": class, "failing_runs": f.count, "minimal": f.min}));
+    }
+    rep.violation_count = acc.failed;
+    let machinery = MACHINERY_ERRORS.load(Ordering::Relaxed);
+    let maxima: BTreeMap<String, u64> = acc.maxima.clone();
+    let code = finish(
+        &ctx,
+        rep,
+        "run = (type environment, argument type list, configuration TOML + scope, entropy bytes); every run executes candid_parser::random::any twice in a worker process on a 8 MiB-stack thread under a 5 s watchdog. Families: A = every type list (arity 0; all depth<=1 types over 11 leaves with opt/vec/record{[],[0],[0,1]}/variant{[],[0],[0,1]}; func/service references; 5 recursive environments as t, opt t, vec t, record{t;t}; 12x12 pairs) x default configuration; B = reduced type lists (36) x every configuration (default, depth/size at root/argument/definition selectors, width, range incl. reversed and full i64, text kinds, value lists matching and mismatching, malformed, scoped tables with 5 scopes); C (thorough) = every type list x every configuration; D = uninhabited/infinitely recursive definitions (t=record{t}, variant{0:t}, vec t, opt t, mutual records, record{nat;t}; as t, opt t, vec t, (nat,t), (t,nat)) x 3 (quick) / 6 (thorough) configurations, each input announced so that a dead worker identifies it. Seeds: ALL byte strings over {00,01,7f,80,ff} up to the family's length. Non-trivial = runs that returned Ok(values) (then clauses a,b,d,e are evaluated); Err runs are checked for determinism only.",
+        &[
+            "the generator has no source of nondeterminism besides the entropy slice (fake's text kinds are seeded from it)",
+            "R1 typing judgement and R2 strict decoder are correct readings of spec/Candid.md",
+            "clause (d) is a soft bound (config.md: 'The depth bound is a soft limit'): present-opt/variant nesting <= 3*limit + acyclic choice depth of the type; vectors are not counted (governed by width)",
+            "root-level value/range/text/width keys and scoped tables are interpreted only by the implementation; the oracle does not predict which value is chosen, only that it inhabits the type",
+        ],
+        json!({"scope": sc.summary, "max_value_size_per_configuration": maxima, "failure_classes": classes, "machinery_errors": machinery}),
+    );
+    if machinery > 0 {
         std::process::exit(2);
     }
-    let ctx = Ctx::new("C20", tier, tier.pick(120, 1200));
-    let mut rep = Report::new();
-    let _ = catch(|| ());
-    rep.sample(json!("skeleton"));
-    let code = finish(&ctx, rep, "skeleton", &[], json!({}));
     std::process::exit(code);
 }
